@@ -581,7 +581,7 @@ def ob_project_commands(dim):
             stb = g.stmts[g.producer[pr.outs['B'][0]]]
             st, argv = argv_of(stb['ins'][0])
             o0, o1 = st['outs'][0], st['outs'][1]
-            check(len(st['ins']) == 1 and argv[1:] == ['-c', 'pass', st['ins'][0], '--pair=' + o0 + ',' + o1, o1], 'generator arguments: @INPUT@ and every @OUTPUTn@ - also two in one argument - are substituted')
+            check(len(st['ins']) == 1 and argv[1:] == ['-c', 'pass', st['ins'][0], '--pair=' + o0 + ',' + o1, o1, pr.ea], 'generator arguments: @INPUT@ and every @OUTPUTn@ - also two in one argument - are substituted, extra_args arrive verbatim')
             check(o0.endswith('in.c') and o1.endswith('in.h'), 'generator outputs are named after the input (@BASENAME@)')
             cover('generator')
         cover('done')
